@@ -286,8 +286,11 @@ class BSplines():
                     knots[d+2+i] - knots[i+1])*inv_deg*(u - l)
 
             if self.periodic:
+                # The part of spline n+i inside the domain is the part of
+                # spline i (its periodic image) which lies outside it
                 for i in range(d):
-                    self._integrals[n+i] = self._integrals[d-i-1]
+                    self._integrals[n+i] = (
+                        knots[d+2+i] - knots[i+1])*inv_deg - self._integrals[i]
 
 # ===============================================================================
 
